@@ -465,7 +465,7 @@ func c20Scenarios(quick bool, queries map[string][]string) []c20Scenario {
 			pairs = append(pairs, [2][]int{{1, 3}, {2, 4}}, [2][]int{{4}, {4, 1}}, [2][]int{{2, 1}, {3}})
 		}
 		subj4 := subj
-		if subj == "htpasswd" && quick {
+		if subj == "htpasswd" {
 			subj4 = "htpasswd-sha"
 		}
 		for _, p := range pairs {
@@ -695,8 +695,15 @@ func init() {
 					return
 				}
 				bound := 1000 // no preemption bound
-				if c.Quick() && (len(sc.Reloaders) > 1 || len(sc.Validators) > 2) {
-					bound = int(envInt("VERIF_C20_BOUND", 2))
+				if len(sc.Reloaders) > 1 || len(sc.Validators) > 2 {
+					// 4-thread scenarios: preemption bound 2 (quick) / 3 (thorough); measured: unbounded
+					// they need tens of minutes each, and one thorough pass spent its whole 40-minute
+					// deadline on them without finishing
+					def := int64(2)
+					if !c.Quick() {
+						def = 3
+					}
+					bound = int(envInt("VERIF_C20_BOUND", def))
 					c.Info["preemption_bound_for_4_thread_scenarios"] = bound
 				}
 				c20Explore(c, env, sc, bound, true)
